@@ -167,6 +167,46 @@ theorem decode_max_exact (limit minP : BitVec 32) (maxP : Option (BitVec 32))
         | (simp at hv; done)
         | (split <;> (try split) <;> simp_all [Nat.min_def] <;> omega)
 
+/-- TOTAL and exact, both settings of `WithMemoryCapacityFromMax` (the regenerated sizer + Validate): every memory
+type whose declared maximum is a valid wasm value (≤ 65536, the boundary included) and whose minimum fits is
+ACCEPTED, keeps its minimum, and gets the effective maximum min(declared max, limit) - for every configured limit. -/
+theorem decode_accepts_valid (limit minP mx : BitVec 32) (cfm : Bool)
+    (hx : mx.toNat ≤ 65536) (hm : minP.toNat ≤ Nat.min mx.toNat limit.toNat) :
+    ∃ r, decodeMemory limit cfm minP (some mx) = .ok r ∧ r.1 = minP ∧
+      r.2.2.toNat = Nat.min mx.toNat limit.toNat := by
+  have hm1 : minP.toNat ≤ mx.toNat := Nat.le_trans hm (Nat.min_le_left _ _)
+  have hm2 : minP.toNat ≤ limit.toNat := Nat.le_trans hm (Nat.min_le_right _ _)
+  have h65 : (65536#32).toNat = 65536 := rfl
+  have hnx : ¬ 65536 < mx.toNat := Nat.not_lt.mpr hx
+  by_cases hlt : limit.toNat < mx.toNat
+  · have hs : memorySizer limit cfm minP (some mx) = (minP, (if cfm then limit else minP), limit) := by
+      cases cfm <;> simp [memorySizer, BitVec.ult, BitVec.ule, h65, hx, hlt, hnx]
+    refine ⟨(minP, (if cfm then limit else minP), limit), ?_, rfl, ?_⟩
+    · unfold decodeMemory
+      rw [hs]
+      cases cfm <;> simp [Validate, BitVec.ult, Nat.not_lt.mpr hm2]
+    · exact (Nat.min_eq_right (Nat.le_of_lt hlt)).symm
+  · have hs : memorySizer limit cfm minP (some mx) = (minP, (if cfm then mx else minP), mx) := by
+      cases cfm <;> simp [memorySizer, BitVec.ult, BitVec.ule, h65, hx, hlt, hnx]
+    refine ⟨(minP, (if cfm then mx else minP), mx), ?_, rfl, ?_⟩
+    · unfold decodeMemory
+      rw [hs]
+      cases cfm <;> simp [Validate, BitVec.ult, Nat.not_lt.mpr hm2, Nat.not_lt.mpr hm1, hlt]
+    · exact (Nat.min_eq_left (Nat.le_of_not_lt hlt)).symm
+
+/-- … and without a declared maximum the effective maximum is the configured limit. -/
+theorem decode_accepts_nomax (limit minP : BitVec 32) (cfm : Bool) (hm : minP.toNat ≤ limit.toNat) :
+    ∃ r, decodeMemory limit cfm minP none = .ok r ∧ r.1 = minP ∧ r.2.2 = limit := by
+  have hs : memorySizer limit cfm minP none = (minP, (if cfm then limit else minP), limit) := by
+    cases cfm <;> simp [memorySizer]
+  refine ⟨(minP, (if cfm then limit else minP), limit), ?_, rfl, rfl⟩
+  unfold decodeMemory
+  rw [hs]
+  cases cfm <;> simp [Validate, BitVec.ult, Nat.not_lt.mpr hm]
+
+-- non-vacuity (test on a sample): (memory 1 65536) under WithMemoryLimitPages(3), capacity from max
+example : decodeMemory 3#32 true 1#32 (some 65536#32) = .ok (1#32, 3#32, 3#32) := by rfl
+
 /-- The model's `grow` preserves the state invariant for every delta and allocator behaviour. -/
 theorem grow_inv (m : Mem) (h : Inv m) (δ : BitVec 32) (a n mv : Bool)
     (r : Mem × BitVec 32 × Bool) (hr : grow m δ a n mv = some r) : Inv r.1 := by
